@@ -18,6 +18,8 @@ for sid in sorted(os.listdir(os.path.join(here, "seeded"))):
     sigs = re.findall(r"'((?:oracle|correspondence|obligation):[^']+)'", m.get("check_signatures", ""))
     kinds = sorted({s.split(":")[0] for s in sigs})
     caught = "+".join(kinds) + ": " + ", ".join(s for s in sigs[:3]) if m.get("caught") else "**MISSED**"
+    if m.get("caught") and m.get("failing_input_found") is False:
+        caught += " — *no failing input found*"
     rows.append(f"| {sid} | {one} | {caught} |")
 print("| seed | what it changes (first words of the sub-agent's note) | caught by (`./check` quick, signatures) |")
 print("|----|----|----|")
